@@ -6,7 +6,7 @@
  *   mpiexec -n N c05_rec <script> <outdir>
  *
  * Script (the same lines are interpreted by the Lean driver c05drv over Model/NumRecs.lean):
- *   HIST <id> n=<ranks> nr0=<initial records> fmt=<1|2|5> [tmo=<s>]
+ *   HIST <id> n=<ranks> nr0=<initial records> fmt=<1|2|5> [aggr=<nc_num_aggrs_per_node>] [tmo=<s>]
  *   putAll | V <recEnd> | Z | E | D | ...            one input per rank (V: writes record recEnd-1)
  *   vardAll | V <ext> | N <ext> | E | ...
  *   putIndep <rank> <recEnd>
@@ -78,6 +78,7 @@ int main(int argc, char **argv)
 
     int ncid = -1, dt = 0, dx, vr = 0, vq, vf = 0, fmt = 1, tmo = 20, active = 0, naux = 0;
     int reqid[MAXID];
+    MPI_Info info = MPI_INFO_NULL;
     static int bufs[MAXID][NX];
     while (fgets(line, sizeof line, sc)) {
         char *nl = strchr(line, '\n'); if (nl) *nl = 0;
@@ -89,7 +90,13 @@ int main(int argc, char **argv)
             active = 1; opidx = 0; naux = 0;
             for (i = 0; i < MAXID; i++) reqid[i] = NC_REQ_NULL;
             alarm(tmo);
-            ncmpi_create(MPI_COMM_WORLD, path, NC_CLOBBER | (fmt == 5 ? NC_64BIT_DATA : fmt == 2 ? NC_64BIT_OFFSET : 0), MPI_INFO_NULL, &ncid);
+            /* configuration: intra-node write aggregation (blocking collective puts and wait_all then go through ncmpio_intra_node.c) */
+            if (info != MPI_INFO_NULL) MPI_Info_free(&info);
+            if (kvi(line, "aggr", 0) > 0) {
+                char v[16]; snprintf(v, sizeof v, "%d", kvi(line, "aggr", 0));
+                MPI_Info_create(&info); MPI_Info_set(info, "nc_num_aggrs_per_node", v);
+            }
+            ncmpi_create(MPI_COMM_WORLD, path, NC_CLOBBER | (fmt == 5 ? NC_64BIT_DATA : fmt == 2 ? NC_64BIT_OFFSET : 0), info, &ncid);
             ncmpi_def_dim(ncid, "t", NC_UNLIMITED, &dt); ncmpi_def_dim(ncid, "x", NX, &dx);
             dims[0] = dt; dims[1] = dx;
             ncmpi_def_var(ncid, "rvar", NC_INT, 2, dims, &vr); ncmpi_def_var_fill(ncid, vr, 0, NULL);
@@ -101,7 +108,7 @@ int main(int argc, char **argv)
                 ncmpi_put_vara_int_all(ncid, vr, st, ct, &v);
             }
             ncmpi_close(ncid);
-            ncmpi_open(MPI_COMM_WORLD, path, NC_WRITE, MPI_INFO_NULL, &ncid);
+            ncmpi_open(MPI_COMM_WORLD, path, NC_WRITE, info, &ncid);
             ncmpi_inq_unlimdim(ncid, &dt); ncmpi_inq_varid(ncid, "rvar", &vr); ncmpi_inq_varid(ncid, "fvar", &vf);
             continue;
         }
@@ -181,7 +188,7 @@ int main(int argc, char **argv)
             int i;
             rc = ncmpi_close(ncid);
             for (i = 0; i < MAXID; i++) reqid[i] = NC_REQ_NULL;
-            ncmpi_open(MPI_COMM_WORLD, path, NC_WRITE, MPI_INFO_NULL, &ncid);
+            ncmpi_open(MPI_COMM_WORLD, path, NC_WRITE, info, &ncid);
             ncmpi_inq_unlimdim(ncid, &dt); ncmpi_inq_varid(ncid, "rvar", &vr); ncmpi_inq_varid(ncid, "fvar", &vf);
         } else rc = -99999;
         MPI_Offset nr = -1;
